@@ -8,9 +8,11 @@ static const Part kParts[] = {
 	{"C01", "vol-roundtrip", 12000, 400000},
 	{"C02", "vol-roundtrip", 8000, 300000},
 	{"C02", "vol-foreign", 8000, 300000},
+	{"C02", "vol-giant", 150, 6000},
 	{"C03", "clm-roundtrip", 10000, 300000},
 	{"C04", "lzh-drain", 6000, 300000},
 	{"C05", "archive-damage", 96, 3200},
+	{"C05", "vol-giant", 150, 6000},
 	{"C06", "map-stream", 10000, 400000},
 	{"C07", "map-damage", 64, 3200},
 	{"C08", "bmp-stream", 20000, 600000},
@@ -20,10 +22,12 @@ static const Part kParts[] = {
 	{"C12", "stream-actors", 60000, 3000000},
 	{"C13", "stream-actors", 40000, 2000000},
 	{"C13", "archive-streams", 8000, 300000},
+	{"C13", "vol-giant", 150, 6000},
 	{"C14", "writer-actors", 40000, 2000000},
 	{"C14", "copy-matrix", 4000, 200000},
 	{"C14", "filewriter-matrix", 300, 20000},
 	{"C17", "resource-layout", 12000, 200000},
+	{"C17", "vol-giant", 150, 6000},
 	{"C18", "twin-env", 10000, 300000},
 	{"C20", "limits", 58, 140},
 };
